@@ -81,6 +81,13 @@ def role_table(f):
 
 
 def run(ctx):
+    if ctx.pid != "C01":
+        # included by another property's check: once per run is enough
+        key = ("c01", getattr(ctx, "rule_suffix", ""))
+        done = ctx.__dict__.setdefault("_groups_done", set())
+        if key in done:
+            return
+        done.add(key)
     ctx.explanation = __doc__
     for cfg in (["A"] if ctx.tier == "quick" else ["A", "C"]):
         f = ctx.facts(cfg)
